@@ -118,6 +118,7 @@ func ylist(ys []yop) string {
 // a running history on a real cache
 
 type hist struct {
+	overwrites int
 	backend string
 	shards  int
 	maxb    int64
@@ -583,8 +584,14 @@ func (g *genCtx) genStoreTrigger(backend string) {
 			sz = 1
 		}
 		sh := g.r.Intn(64)
+		id := g.next
+		if len(h.live) > 0 && g.r.Chance(25) { // a refresh: the store overwrites a key that is already stored
+			id = g.pickLive(h)
+			sh = h.live[id].shard
+			h.overwrites++
+		}
 		held := g.heldSubset(h, map[int]bool{sh % shards: true}, 20)
-		h.opStore(g.next, sh, sz, g.age(false), 3600000, held, g.r)
+		h.opStore(id, sh, sz, g.age(false), 3600000, held, g.r)
 		if g.r.Chance(15) && len(h.live) > 0 {
 			h.opTouch(g.pickLive(h), emit.Pick(g.r, []int64{0, 0, 1, 3}))
 		}
